@@ -116,7 +116,7 @@ func c09Run(ref treeRef) (*eng.Fail, bool) {
 
 func init() {
 	checks["C09"] = eng.Check{
-		Rule: "ConstFold on every expression tree of the declared spaces (all trees with 1 internal node over 9 leaves and widths 1..3; all trees with 2 internal nodes over 4 leaves; thorough: all with 3 internal nodes over 2 leaves/widths 1..2; all width-gadget chains of length <=3 with widths 1..4 over 6 bases in every consumer context; chains of two decided conditionals around a non-constant expression for all 4^3 width triples; depth-1 trees at widths 8,9,16,17,255; constant-only trees with <=2 operations), each compared with the original under 9 valuations by an independent big-integer evaluator. Non-trivial = tree that folding changed.",
+		Rule: "ConstFold on every expression tree of the declared spaces (all trees with 1 internal node over 9 leaves and widths 1..3; all trees with 2 internal nodes over 4 leaves; thorough: all with 3 internal nodes over 2 leaves/widths 1..2; all width-gadget chains of length <=3 with widths 1..4 over 8 bases (incl. conditionals comparing operands wider than themselves) in every consumer context; chains of two decided conditionals around a non-constant expression for all 4^3 width triples; depth-1 trees at widths 8,9,16,17,255; constant-only trees with <=2 operations), each compared with the original under 9 valuations by an independent big-integer evaluator. Non-trivial = tree that folding changed.",
 		Assumptions: []string{
 			"semantic equality is decided on 9 valuations (register values 0..2^56, pseudo-random memory) — a difference is only reported with a concrete witness",
 			"memory addresses do not wrap",
